@@ -4,29 +4,38 @@ import random
 from .sim.world import World, RandomScheduler, PriorityScheduler
 
 
-async def _batch(mpc, cases, evaluator, ctxarg, chunk):
+async def _batch(mpc, cases, evaluator, ctxarg, chunk, case_timeout=None):
+    import asyncio
     await mpc.start()
     out = []
+    failed = False
     for i in range(0, len(cases), chunk):
         pend = []
         for j, case in enumerate(cases[i:i + chunk]):
             pend.append(evaluator(mpc, case, i + j, ctxarg))
         for p in pend:
             try:
-                out.append(await p)
+                if case_timeout:
+                    # virtual-time timeout: a case whose coroutine died (exception inside an MPyC task) never completes
+                    out.append(await asyncio.wait_for(p, case_timeout))
+                else:
+                    out.append(await p)
             except Exception as exc:          # an exception raised by the operation itself
                 out.append({'exc': type(exc).__name__ + ':' + str(exc)[:80]})
-    await mpc.shutdown()
+                failed = True
+    if not failed or not case_timeout:
+        # (a coroutine that died leaves _pc_level > 0 for ever: shutdown() would spin; skip it then)
+        await mpc.shutdown()
     return out
 
 
 def run_batch(cases, evaluator, m, t, seed=0, no_prss=False, sec_param=30, ctxarg=None, chunk=40,
-              scheduler=None, max_steps=3000000, options=None):
+              scheduler=None, max_steps=3000000, options=None, case_timeout=None):
     """evaluator(mpc, case, index, ctxarg) -> awaitable giving a JSON-able result.
     Returns (status, results per party, errors)."""
     w = World(m, t, seed=seed, no_prss=no_prss, sec_param=sec_param, options=options)
     try:
-        w.spawn(_batch, cases, evaluator, ctxarg, chunk)
+        w.spawn(_batch, cases, evaluator, ctxarg, chunk, case_timeout)
         st = w.run(scheduler or RandomScheduler(seed, 'all'), max_steps=max_steps)
     finally:
         w.close()
